@@ -79,14 +79,15 @@ def unit_name(u):
     return u[0] if u[1] is None else f"{u[0]}.{u[1]}"
 
 
-def shell_text(script, uname, tag, mdir, to_file=True):
+def shell_text(script, uname, tag, mdir, to_file=True, letter=None, extra=False):
     """The two commands of a unit.  A script is a string of per-attempt outcomes (the last one repeats):
     S succeed, F fail (exit 3, nothing produced), O succeed but produce nothing, W produce the result and
     then fail in the second command.  "FS" = fail, then succeed; "SF" = succeed, then fail; ..."""
     m = shlex.quote(str(mdir))
     cnt = f"{m}/{uname}.cnt"
     # the result goes into the declared return file, or to stdout for jobs that declare none
-    write = f"printf %s {uname}:{tag}:n$n" + (" > res.txt" if to_file else "")
+    # `letter`: shell text that yields the input's identifying letter (default: the literal tag)
+    write = f"printf %s {uname}:{letter or tag}:n$n" + (" > res.txt" if to_file else "")
     first = {"S": write, "F": "exit 3", "O": ":", "W": write}
     second = {"S": ":", "F": ":", "O": ":", "W": "exit 3"}
     if not script or any(c not in first for c in script):
@@ -96,7 +97,7 @@ def shell_text(script, uname, tag, mdir, to_file=True):
         arms = "".join(f"{i + 1}) {table[c]};; " for i, c in enumerate(script[:-1]))
         return f"case $n in {arms}*) {table[script[-1]]};; esac"
 
-    c0 = f"echo x >> {cnt}; n=$(wc -l < {cnt}); n=$((n+0)); " + case(first)
+    c0 = f"echo x >> {cnt}; n=$(wc -l < {cnt}); n=$((n+0)); " + ("printf x > extra.txt; " if extra else "") + case(first)
     c1 = f"n=$(wc -l < {cnt}); n=$((n+0)); " + case(second)
     return c0, c1
 
@@ -108,9 +109,38 @@ DECL_LABEL = {"file": "return_files=tuple", "none": "return_files=None", "empty"
 JOB_OF = {"file": "calc", "none": "calc_out", "empty": "calc_nof"}
 
 
+# "the input differs in field F only": variants of one JobInput that differ from the base input in exactly one field
+VARY = ("jid", "commands", "files-name", "files-content", "return_files", "envars-add", "envars-value", "envars-remove", "timeout")
+VARY_FIELD = {"jid": "jid", "commands": "commands", "files-name": "files", "files-content": "files", "return_files": "return_files", "envars-add": "envars", "envars-value": "envars", "envars-remove": "envars", "timeout": "timeout"}
+# variants whose difference the commands can see: the payload carries the variant's letter
+VARY_VISIBLE = {"commands": None, "files-content": '"$(cat note.txt)"', "envars-value": '"$C18_V"'}
+
+
 def make_driver_class():
-    def prep(self, M, tag="A", mdir=None):
+    def prep(self, M, tag="A", mdir=None, vary=None, alt=False):
         u = unit_of(M)
+        if vary is not None:
+            un = unit_name(u)
+            L = "B" if alt else "A"
+            letter = VARY_VISIBLE.get(vary)
+            c0, c1 = shell_text(PLAN[u], un, L if vary == "commands" else "A", mdir, to_file=bool(self.return_files), letter=letter, extra=vary == "return_files")
+            files = {"note.txt": (L if vary == "files-content" else "A"), ("aux2.txt" if vary == "files-name" and alt else "aux.txt"): "aux"}
+            env = {"C18_V": L if vary == "envars-value" else "A", "C18_W": "w"}
+            if vary == "envars-add" and alt:
+                env["C18_X"] = "x"
+            if vary == "envars-remove" and alt:
+                del env["C18_W"]
+            ret = self.return_files
+            if vary == "return_files" and alt:
+                ret = tuple(ret) + ("extra.txt",)
+            return JobInput(
+                un + ("-alt" if vary == "jid" and alt else ""),
+                commands=[(shlex.join([self.executable, "-c", c0]), "main"), (shlex.join([self.executable, "-c", c1]), None)],
+                files=files,
+                return_files=ret,
+                envars=env,
+                timeout=60.0 if vary == "timeout" and alt else None,
+            )
         c0, c1 = shell_text(PLAN[u], unit_name(u), tag, mdir, to_file=bool(self.return_files))
         return JobInput(
             unit_name(u),
@@ -247,9 +277,12 @@ class World:
         self.kind = cfg["kind"]
         self.decl = cfg.get("decl", "file")
         self.strict = bool(cfg.get("strict", True))
+        self.vary = cfg.get("vary")
         self.label = f"{cfg['kind']},{DECL_LABEL[self.decl]}"
         if not self.strict:
             self.label += ",strict_hash=False"
+        if self.vary:
+            self.label += f",differs-in={self.vary}"
         if any("." in k for k in cfg["keys"]):
             self.label += ",keys=dotted"
         elif any(not k.isalnum() for k in cfg["keys"]):
@@ -483,7 +516,7 @@ class World:
                     cache_dir=self.cache_dir,
                     scratch_dir=self.w / "scratch",
                     n_workers=1,
-                    kwargs={"tag": m.tag, "mdir": str(self.mdir)},
+                    kwargs={"tag": m.tag, "mdir": str(self.mdir)} if not self.vary else {"mdir": str(self.mdir), "vary": self.vary, "alt": m.tag == TAGS[1]},
                     **({} if self.strict else {"strict_hash": False}),
                 )
         except _Alarm:
@@ -558,7 +591,8 @@ class World:
                     n = m.attempts.get(un, 0) + 1
                     m.attempts[un] = n
                     cok, hasfile = script_outcome(self.plan[u], n)
-                    rec = (m.tag, cok, hasfile, f"{un}:{m.tag}:n{n}".encode() if hasfile else None)
+                    letter = m.tag if (not self.vary or self.vary in VARY_VISIBLE) else TAGS[0]
+                    rec = (m.tag, cok, hasfile, f"{un}:{letter}:n{n}".encode() if hasfile else None)
                     result[un] = rec
                     how[un] = "executed"
                     if cok and (hasfile or self.decl != "file"):
@@ -775,7 +809,7 @@ def rot(lst, seed):
     return lst[r:] + lst[:r]
 
 
-def configs(kind, keys, unit_plans, decl="file", strict=True, foreign_opts=(False, True), prepop=True):
+def configs(kind, keys, unit_plans, decl="file", strict=True, foreign_opts=(False, True), prepop=True, vary=None):
     """Every initial configuration: per key either 'already in the destination' or a plan for its units
     (unit_plans: one list of plans for all keys, or a dict key -> list); x foreign key present or not."""
     per_key = [(["DEST"] if prepop else []) + list(unit_plans[k] if isinstance(unit_plans, dict) else unit_plans) for k in keys]
@@ -790,7 +824,7 @@ def configs(kind, keys, unit_plans, decl="file", strict=True, foreign_opts=(Fals
                     plan[k] = ["S"] * (1 if kind == "single" else 2)
                 else:
                     plan[k] = list(c)
-            out.append({"kind": kind, "decl": decl, "strict": strict, "keys": list(keys), "plan": plan, "prepop": pre, "foreign": foreign})
+            out.append({"kind": kind, "decl": decl, "strict": strict, "vary": vary, "keys": list(keys), "plan": plan, "prepop": pre, "foreign": foreign})
     return out
 
 
@@ -813,7 +847,7 @@ def explore(ctx, cfg, depth, corrupt_kinds, real_runner=False, seen=None):
             return
         key = world.model.canon()
         m = world.model
-        c = (cfg["kind"], cfg.get("decl", "file"), cfg.get("strict", True), tuple(cfg["keys"]), tuple(sorted((k, tuple(v)) for k, v in cfg["plan"].items())), tuple(cfg["prepop"]), cfg["foreign"], m.canon())
+        c = (cfg["kind"], cfg.get("decl", "file"), cfg.get("strict", True), cfg.get("vary"), tuple(cfg["keys"]), tuple(sorted((k, tuple(v)) for k, v in cfg["plan"].items())), tuple(cfg["prepop"]), cfg["foreign"], m.canon())
         ctx.state_keys.add(hashlib.blake2b(repr(c).encode(), digest_size=10).digest())
         ctx.outcome(hashlib.sha1(repr(world.last_obs).encode()).hexdigest()[:12])
         if any(v for v in world.last_obs[0] if v[1]) or level > 1:
@@ -896,8 +930,15 @@ def run(ctx):
         "keys: alphanumerics, '.', '-', '_' (keys with '/' or blanks cannot be used as cache file names by the unchanged code: out of scope)",
         "every run starts with leftovers of earlier runs in place: the .inp/.out files of all earlier runs of the history plus stray <unit>.err / .out~ / .out.tmp / .inp.bak files and an abandoned scratch directory holding a result file",
         "what a FAILED execution leaves in the cache (its own output, nothing, or the previous output untouched) is not constrained; the model follows what is found there for later reuse decisions - the RESULT of the run is always that of the run's own execution: a failed item is absent from the destination, never served from an earlier run's output",
+        "a cached output is reused iff the current JobInput equals the one it was computed from in EVERY field (jid, commands, files, return_files, envars, timeout: the unchanged code hashes attrs.asdict of the whole input; no field is deliberately ignored)",
         "n_workers=1; the destination is a plain Collection[bytes] on the Ukv backend, the sources are a MoleculeLibrary / ConformerLibrary",
     ]
+    import attrs as _attrs
+
+    unknown = [f.name for f in _attrs.fields(JobInput) if f.name not in set(VARY_FIELD.values())]
+    if unknown:
+        raise HarnessError(f"JobInput has fields that the 'input differs in one field only' histories do not vary: {unknown} - extend VARY in mc/props/c18.py")
+    ctx.bound["input_differs_in_one_field"] = {"fields_of_JobInput": [f.name for f in _attrs.fields(JobInput)], "variants": list(VARY)}
     parts = []
     nproc = 16 if ctx.thorough else 8
     k2, k3 = ["k0", "k1"], ["k0", "k1", "k2"]
@@ -923,6 +964,11 @@ def run(ctx):
         parts += [(2, T, False, c) for c in chunk(configs("single", k2, [("SF",), ("SW",)], "none", foreign_opts=NF, prepop=False), nproc)]
         parts += [(2, T, False, c) for c in chunk(configs("single", k2, [("SF",)], strict=False, foreign_opts=NF, prepop=False), nproc)]
         ctx.bound["scripts"] = "per-attempt outcome strings over {S,F,O,W}: S F FS O W (everywhere); SF SO SW (single), SF / SO on one conformer (vectorised), 1..2 runs"
+        # the input of the second run differs from the first in exactly ONE field of JobInput
+        for v in rot(VARY, seed):
+            parts += [(2, T, False, c) for c in chunk(configs("single", k2, [("S",), ("F",)], foreign_opts=NF, prepop=False, vary=v), 2)]
+            if v in ("jid", "envars-value", "timeout"):
+                parts += [(2, T, False, configs("vector", k2, [("S", "S")], foreign_opts=NF, prepop=False, vary=v))]
         # key alphabets
         for name, ks in KEYSETS.items():
             parts += [(2, T, False, c) for c in chunk(configs("single", ks, [("S",), ("F",)], foreign_opts=NF, prepop=False), nproc)]
@@ -958,6 +1004,14 @@ def run(ctx):
         parts += [(2, T, False, x) for x in chunk(configs("single", k2, [("SF",), ("SW",)], strict=False, foreign_opts=NF), nproc)]
         parts += [(2, T, True, x) for x in chunk(configs("single", k2, [("SF",)], foreign_opts=NF, prepop=False), 4)]
         ctx.bound["scripts"] = "per-attempt outcome strings over {S,F,O,W}: S F FS O W everywhere; SF SO SW SFS SSF FSF single 1..3 runs; vectorised SF/SO/SW/FS mixes 1..2 runs; real runner SF"
+        # the input differs in exactly one field of JobInput
+        for v in VARY:
+            parts += [(3 if v in ("jid", "envars-value", "timeout") else 2, T, False, x) for x in chunk(configs("single", k2, [("S",), ("F",), ("FS",)], foreign_opts=NF, vary=v), 8)]
+            parts += [(2, T, False, x) for x in chunk(configs("vector", k2, [("S", "S"), ("F", "S")], foreign_opts=NF, prepop=False, vary=v), 4)]
+            if v != "return_files":
+                parts += [(2, T, False, x) for x in chunk(configs("single", k2, [("S",), ("F",)], "none", foreign_opts=NF, prepop=False, vary=v), 4)]
+        parts += [(2, T, True, x) for x in chunk(configs("single", k2, [("S",)], foreign_opts=NF, prepop=False, vary="envars-value"), 1)]
+        parts += [(2, T, True, x) for x in chunk(configs("single", k2, [("S",)], foreign_opts=NF, prepop=False, vary="timeout"), 1)]
         # strict_hash=False
         parts += [(3, T, False, x) for x in chunk(configs("single", k2, single, strict=False, foreign_opts=NF), nproc * 2)]
         parts += [(2, CK, False, x) for x in chunk(configs("vector", k2, vec5, strict=False, foreign_opts=NF), nproc * 3)]
